@@ -300,8 +300,9 @@ func (b *Batcher) Add(event *Event) {
 
 // trySendBatch mu should be locked, and it'll be unlocked after execution of this function
 func (b *Batcher) trySendBatchAndUnlock(batch *Batch) {
+	verifElapsed := verifSince(batch.startTime) // read BEFORE updateStatus looks at the clock: never more than what it saw
 	if batch.updateStatus() == BatchStatusNotReady {
-		verifTrace(vtBatchNotReady, b, int64(len(batch.events)), int64(batch.eventsSize), int64(time.Since(batch.startTime)), int64(batch.timeout))
+		verifTrace(vtBatchNotReady, b, int64(len(batch.events)), int64(batch.eventsSize), verifElapsed, int64(batch.timeout))
 		b.mu.Unlock()
 		return
 	}
